@@ -47,6 +47,7 @@ OF OR IN CONNECTION WITH THE SOFTWARE OR THE USE OR OTHER DEALINGS IN THE SOFTWA
 #define MINISATSMTSOLVER_H
 
 #include <common/Timer.h>
+#include <common/VerifHooks.h>
 #include <common/TypeUtils.h>
 #include <minisat/core/SolverTypes.h>
 #include <minisat/mtl/Vec.h>
